@@ -1,11 +1,16 @@
 """C19 — server-level property decided on event histories (see simcheck.py / simgen.py)."""
-import simcheck
+import simcheck, tlscheck
 
 
 def run(chk):
     chk.prove("Properties_C19")
     simcheck.run_sim(chk, flavour=FLAVOUR)
+    tlscheck.run(chk)
 
 
-replay = simcheck.replay
+def replay(body):
+    if body["replay"].get("harness") == "h_tls":
+        return tlscheck.replay(body)
+    return simcheck.replay(body)
+
 FLAVOUR = "plain"
